@@ -65,7 +65,7 @@ def evaluate(case):
     va = skel.view(res.xml, root)
     fvb = skel.baseline_fields()
     fva = skel.all_fields(va)
-    ex = model.expect(case, vb, va, fva)
+    ex = model.expect(case, vb, va, fva, fvb)
     d = skel.delta(fvb, fva)
     out['delta'] = d
 
@@ -93,6 +93,8 @@ def evaluate(case):
 
     for (i, f) in sorted(ex.must):
         vals, label = ex.must[(i, f)]
+        if ex.allowed(i, f):
+            continue                 # another block of the case makes this field UNSPECIFIED
         out['must'] += 1
         got = actual(i, f)
         if got not in vals:
@@ -104,16 +106,23 @@ def evaluate(case):
                                    fvb[i].get(f) if i in fvb else None)))
     summ = None
     for (i, f) in sorted(d):
-        if (i, f) in ex.must:
-            continue
         if ex.allowed(i, f):
             out['unspec'] += 1
+            continue
+        if (i, f) in ex.must:
             continue
         if summ is None:
             summ = case_summary(case)
         k = kind_of(i, va, vb)
         out['viol'].append((vkey('frame|%s|%s|%s' % (summ, k, f), i),
                             '%s %s changed %r -> %r although no block documents it' % ((i, f) + d[(i, f)])))
+    if ex.warn:
+        base_w = skel.baseline_warnings()
+        neww = [w['text'] for w in res.warnings() if w['text'] not in base_w]
+        out['must'] += 1
+        if not neww:
+            out['viol'].append(('must|role-warning|' + case_summary(case),
+                                'no diagnostic although %s' % '; '.join(ex.warn)))
     for p in model.rename_consistency(ex, fva):
         out['viol'].append(('rename-consistency|' + model.rename_shape(ex.renames), p))
     if not ex.must and not ex.may:
